@@ -99,6 +99,7 @@ def gen_case(seed, tier, index=0):
     world = {"files": files, "symlinks": symlinks, "sentinel": sentinel, "dirs": empty_dirs,
              "home": [{"path": ".gitconfig-decoy", "content": "[user]\n"}, {"path": ".config/reuse/x", "content": "x\n"}]}
     git = rng.chance(0.6)
+    submodules = []
     if git:
         files.append({"path": ".gitignore", "content": "ignored_dir/\n*.log\nsecret.cfg\nbuild/\ndist/\n.tox/\n.venv/\n"})
         for extra in ("build/b.py", "dist/d.py", ".tox/t.py", ".venv/v.py"):
@@ -124,6 +125,13 @@ def gen_case(seed, tier, index=0):
             untracked += ["newdir/n.py"]
         world["git"] = {"commit": True, "untracked": untracked}
         if rng.chance(0.35):
+            # a submodule (by .gitmodules): its files are excluded, from whichever directory the command is started
+            files.append({"path": ".gitmodules", "content": '[submodule "vendored"]\n\tpath = vendored/lib\n\turl = https://example.org/lib.git\n'})
+            files.append({"path": "vendored/lib/v.py", "content": "v = 1\n"})
+            files.append({"path": "vendored/lib/util/h.c", "content": "int h;\n"})
+            files.append({"path": "vendored/own.py", "content": "own = 1\n"})
+            submodules = ["vendored/lib"]
+        if rng.chance(0.35):
             # ignore rules that live in the user's Git configuration, not in the tree
             world["home"] = world["home"] + [{"path": ".gitconfig", "content": "[core]\n\texcludesFile = ~/.gitignore_global\n"},
                                              {"path": ".gitignore_global", "content": "*.local.py\nscratch/\n"}]
@@ -134,6 +142,16 @@ def gen_case(seed, tier, index=0):
     ann_files = [p for p in all_paths if p.startswith(("src/", "docs/")) and not p.endswith((".license", ".log"))
                  and p not in ("src/link_file.py", "src/linkdir", "docs/rel_link.py", "src/empty.py", "docs/COPYING.md")]
     steps = [{"argv": ["--version"], "observe": [{"kind": "git_ignored", "paths": sorted(all_paths)}] if git else []}]
+
+    def elsewhere(argv_head, names):
+        """The same annotate command started from another directory: names are spelled relative to it."""
+        real_dirs = sorted({posixpath.dirname(p) for p in all_paths if "/" in p} & {"src", "docs", "src/deep", "vendored"})
+        if not git or not rng.chance(0.3):
+            return argv_head + names, None
+        cwd = rng.pick(real_dirs + [".."])
+        if cwd == "..":
+            return ["--root", "p"] + argv_head + [posixpath.join("p", n) for n in names], cwd
+        return argv_head + [posixpath.relpath(n, cwd) for n in names], cwd
 
     def mp(argv):
         st = {"argv": list(argv)}
@@ -167,12 +185,29 @@ def gen_case(seed, tier, index=0):
                 flat.append("--skip-unrecognised")
             if "--year" in flat and "--exclude-year" in flat:
                 flat.remove("--exclude-year")
-            steps.append(mp(["annotate", "-c", rng.pick(G.HOLDERS), "-l", rng.pick(G.VALID), "-r"] + flat + dirs))
+            if submodules and rng.chance(0.4):
+                dirs = sorted(set(dirs + [rng.pick(["vendored", "vendored/lib", "vendored/lib/util"])]))
+            argv, cwd = elsewhere(["annotate", "-c", rng.pick(G.HOLDERS), "-l", rng.pick(G.VALID), "-r"] + flat, dirs)
+            st = mp(argv)
+            if cwd:
+                st["cwd"] = cwd
+            steps.append(st)
         elif k == "annotate":
             names = rng.sample(ann_files, min(len(ann_files), rng.randint(1, 3)))
             opts = rng.pick([[], ["--fallback-dot-license"], ["--force-dot-license"], ["--skip-unrecognised"], ["--style", "python"],
                              ["--multi-line"], ["--contributor", "Bob"]])
-            steps.append(mp(["annotate", "-c", rng.pick(G.HOLDERS), "-l", rng.pick(G.VALID)] + opts + names))
+            argv, cwd = elsewhere(["annotate", "-c", rng.pick(G.HOLDERS), "-l", rng.pick(G.VALID)] + opts, names)
+            st = mp(argv)
+            if cwd:
+                st["cwd"] = cwd
+            if rng.chance(0.3):
+                # the disk fills up while annotate writes - whatever file it writes to in that directory (the plan cannot
+                # know the name of a temporary file): what is left behind must still be only the named files and their
+                # .license companions
+                d = posixpath.dirname(rng.pick(names))
+                st["faults"] = [rng.pick([{"op": "write", "path_glob": (d + "/*") if d else "*", "errno": "ENOSPC", "after": rng.pick([0, 7, 40])},
+                                          {"op": "write", "path_glob": (d + "/*") if d else "*", "errno": "EIO", "after": 0}])]
+            steps.append(st)
         elif k == "convert":
             st = mp(["convert-dep5"])
             if rng.chance(0.4):
@@ -198,7 +233,8 @@ def gen_case(seed, tier, index=0):
             steps.append(mp(rng.pick([["frobnicate"], ["lint", "--nope"], ["annotate", "src/a.py"], ["annotate", "-c", "X", "nonexistent.py"],
                                       ["annotate", "-c", "X", "--single-line", "--multi-line", "src/a.py"], ["lint-file", "/etc/passwd"],
                                       ["download"], ["--root", "nonexistent", "lint"]])))
-    return {"prop": PROP, "seed": seed, "world": world, "variants": [{"hashseed": rng.randrange(8), "steps": steps}]}
+    return {"prop": PROP, "seed": seed, "world": world, "submodules": submodules,
+            "variants": [{"hashseed": rng.randrange(8), "steps": steps}]}
 
 
 # ---- model ---------------------------------------------------------------------------------------
@@ -253,6 +289,8 @@ def oracle(case, results):
     ignored = set()
     if recs and recs[0].get("obs"):
         ignored = set(recs[0]["obs"][0]) if isinstance(recs[0]["obs"][0], list) else set()
+    if ".gitmodules" in tree and world.get("git"):
+        ignored |= set(case.get("submodules") or [])
     # directories that are wholly untracked (for the known-finding classification)
     untracked = set((world.get("git") or {}).get("untracked") or [])
     for st, rec in zip(steps, recs):
@@ -289,8 +327,13 @@ def oracle(case, results):
                 allow_new_dirs.add("LICENSES")
         elif cmd == "annotate":
             names, recursive = _parse_annotate(argv)
+            cwd = st.get("cwd") or "."
             for n in names:
-                n = posixpath.normpath(n)
+                if cwd == "..":
+                    n = posixpath.normpath(n)
+                    n = "." if n == "p" else (n[2:] if n.startswith("p/") else n)
+                else:
+                    n = posixpath.normpath(posixpath.join(cwd, n))
                 if n in tree or n in links:
                     allowed |= {n, n + ".license"}
                 elif recursive:
@@ -311,7 +354,9 @@ def oracle(case, results):
             what = "changed-tree"
             if cmd == "annotate":
                 base = label[:-len(".license")] if label.endswith(".license") else label
-                if any(base == i or base.startswith(i.rstrip("/") + "/") for i in ignored):
+                if any(base == m or base.startswith(m + "/") for m in (case.get("submodules") or [])):
+                    what = "touched-submodule"
+                elif any(base == i or base.startswith(i.rstrip("/") + "/") for i in ignored):
                     top = base.split("/")[0]
                     # tracked status is a property of the initial work tree, not of files created by earlier steps
                     initial = [f["path"] for f in world["files"]]
